@@ -145,7 +145,12 @@ where
 
   fn on_admit(&self, key: &K, cost: u64) -> AdmissionDecision<K> {
     let mut state = self.state.lock();
-    if !state.protected.contains(key) && !state.probationary.contains(key) {
+    if state.protected.contains(key) {
+      // Re-admission (the key was overwritten): record the new cost in place.
+      state.protected.push_front(key.clone(), cost);
+    } else {
+      // New keys enter the probationary segment; a re-admitted probationary
+      // key stays there with its cost updated (push_front handles both).
       state.probationary.push_front(key.clone(), cost);
     }
     AdmissionDecision::Admit
